@@ -27,14 +27,14 @@ namespace igris
 
         for (; it != eit; ++it)
         {
-            if (isprint(*it))
+            if (*it == '\\')
+                ret.append("\\\\", 2);
+            else if (isprint(*it))
                 ret.push_back(*it);
             else if (*it == '\n')
                 ret.append("\\n", 2);
             else if (*it == '\t')
                 ret.append("\\t", 2);
-            else if (*it == '\\')
-                ret.append("\\\\", 2);
             else
             {
                 char hi = half2hex((uint8_t)((*it & 0xF0) >> 4));
